@@ -106,16 +106,29 @@ func (e *Encoder) checkEncodeRefMap(v reflect.Value) (int, bool) {
 		}
 	}
 
-	if elem, ok := e.refMap[addr]; ok {
+	// nil and zero-length slices have no identity of their own (they all share address 0 or the
+	// runtime's zero base), so they are never reference targets
+	identity := addr != nil
+	if rv := UnpackPtrValue(v); rv.Kind() == reflect.Slice && rv.Len() == 0 {
+		identity = false
+	}
+
+	if elem, ok := e.refMap[addr]; ok && identity {
 		// the array addr is equal to the first elem, which must ignore
 		if elem.kind == kind {
 			// fmt.Printf("-----> find ref: %d, %p, %v, %v\n", elem.index, addr, kind, v)
 			return elem.index, ok
 		}
-		return 0, false
+		identity = false
 	}
 
-	n := len(e.refMap)
+	// the caller writes a list, map or object now: it takes the next ordinal of the stream,
+	// whether or not it can be referred to later
+	n := e.refCount
+	e.refCount++
+	if !identity {
+		return 0, false
+	}
 	e.refMap[addr] = _refElem{kind, n}
 	// fmt.Printf("---> add ref: %d, %p, %v, %v\n", n, addr, kind, v)
 	return 0, false
